@@ -33,8 +33,9 @@ BUDGET = {"quick": (4, 400), "thorough": (16, 4000)}
 ASSUMPTIONS = ["From(...) is the first positional argument of a predicate-form term",
                "entities compare by identity (eq=False)"]
 
-FIELDS = {"EntKw": ["k", "a", "b", "s", "tags", "o", "ref", "w"], "Ent": ["k", "a", "b", "s", "tags", "o", "ref"], "EntSubSub": ["k", "a", "b", "s", "tags", "o", "ref"], "EntV": ["k", "a", "b", "s", "tags", "o", "ref"], "EntSub": ["k", "a", "b", "s", "tags", "o", "ref"],
-          "EntPlain": ["k", "a", "b", "s", "tags", "o", "ref"], "Other": ["k", "a", "ref"]}
+# ("dbl" is a computed property, "w" a keyword-only field: both only ever given by keyword)
+FIELDS = {"EntKw": ["k", "a", "b", "s", "tags", "o", "ref", "w", "dbl"], "Ent": ["k", "a", "b", "s", "tags", "o", "ref", "dbl"], "EntSubSub": ["k", "a", "b", "s", "tags", "o", "ref", "dbl"], "EntV": ["k", "a", "b", "s", "tags", "o", "ref", "dbl"], "EntSub": ["k", "a", "b", "s", "tags", "o", "ref", "dbl"],
+          "EntPlain": ["k", "a", "b", "s", "tags", "o", "ref", "dbl"], "Other": ["k", "a", "ref"]}
 
 
 def _value_for(draw, field, P, recs, depth, doms):
@@ -42,6 +43,8 @@ def _value_for(draw, field, P, recs, depth, doms):
         return ["const", draw(st.integers(1, len(recs)))]
     if field in ("a", "b", "w"):
         return ["const", draw(st.sampled_from(P["ints"]))]
+    if field == "dbl":
+        return ["const", 2 * draw(st.sampled_from(P["ints"]))]
     if field == "s":
         return ["const", draw(st.sampled_from(P["strs"]))]
     if field == "tags":
